@@ -98,6 +98,30 @@ def run(ctx):
     done = q.raises(w, 'self.done')
     ctx.ob('C24.done', 'ULPIRegisterWindow.done', len(done) == 2 and all(a.state for a in done), None,
            'done is raised at the end of a read and of a write only')
+    # done commits the shadow register of the control translator: once it is raised the transaction must not be restarted
+    # (a write that is interrupted afterwards would be repeated for a request that has been withdrawn by then)
+    starts = {e.dst for e in fsm.out_edges(idle)}
+    for a in done:
+        if not a.state:
+            continue
+        st = a.state[1]
+        assume = {x: p for x, p in q.atoms(a)}         # q.raises folds `done.eq(cond)` into the guard
+        try:
+            outs = state_outcomes(fsm, st, assume)
+        except Exception:
+            outs = state_outcomes(fsm, st)
+        bad = []
+        for dst in outs:
+            nxt = st if dst is None else dst
+            if nxt == idle:
+                continue
+            back = sorted(s for s in reachable(fsm, nxt, stop={idle}) if s in starts) + ([nxt] if nxt in starts else [])
+            if back:
+                bad.append('%s -> %s' % (nxt, back))
+        ctx.ob('C24.done-is-final', 'ULPIRegisterWindow.done@%s' % roles.get(st, st), not bad, a.loc,
+               'after done is raised (state %s, under %s) the transaction can still be restarted before the window is idle again: %s '
+               '-- the control translator has committed its shadow register by then, so the repeated transfer carries whatever '
+               'is requested at that time' % (st, sorted(assume.items()), bad))
     stp = q.raises(w, 'self.ulpi_stop')
     ok = len(stp) == 1 and q.has(stp[0], 'self.ulpi_next') and q.has(stp[0], 'self.ulpi_dir', False) and \
         q.state_of(stp[0]) in chain
